@@ -63,6 +63,7 @@ type Clause struct {
 	Tags    []string
 	Text    string
 	Binders []string
+	BTypes  []string // Go type of each binder (default int)
 	Exists  bool // binders are existential
 	Expr    ast.Expr
 	Info    *types.Info
@@ -283,8 +284,8 @@ func (e *Engine) resolveHeader(ct *Contract) error {
 
 var (
 	reLabel  = regexp.MustCompile(`^([A-Za-z_][A-Za-z0-9_.]*):\s+`)
-	reExists = regexp.MustCompile(`^exists\s+([A-Za-z_][A-Za-z0-9_]*(?:\s*,\s*[A-Za-z_][A-Za-z0-9_]*)*)\s*::\s*`)
-	reForall = regexp.MustCompile(`^forall\s+([A-Za-z_][A-Za-z0-9_]*(?:\s*,\s*[A-Za-z_][A-Za-z0-9_]*)*)\s*::\s*`)
+	reExists = regexp.MustCompile(`^exists\s+([A-Za-z_][A-Za-z0-9_]*(?:\s+[a-z0-9]+)?(?:\s*,\s*[A-Za-z_][A-Za-z0-9_]*(?:\s+[a-z0-9]+)?)*)\s*::\s*`)
+	reForall = regexp.MustCompile(`^forall\s+([A-Za-z_][A-Za-z0-9_]*(?:\s+[a-z0-9]+)?(?:\s*,\s*[A-Za-z_][A-Za-z0-9_]*(?:\s+[a-z0-9]+)?)*)\s*::\s*`)
 )
 
 // rewriteLogic turns ==> and <==> (lowest precedence, right associative) into Go boolean operators.
@@ -366,16 +367,23 @@ func (e *Engine) parseClause(ct *Contract, rc rawClause, pos token.Pos, withResu
 	} else {
 		cl.Label = fmt.Sprintf("%s%d", rc.kind, idx)
 	}
-	if m := reForall.FindStringSubmatch(body); m != nil {
-		for _, b := range strings.Split(m[1], ",") {
-			cl.Binders = append(cl.Binders, strings.TrimSpace(b))
+	addBinders := func(list string) {
+		for _, b := range strings.Split(list, ",") {
+			f := strings.Fields(b)
+			cl.Binders = append(cl.Binders, f[0])
+			if len(f) > 1 {
+				cl.BTypes = append(cl.BTypes, f[1])
+			} else {
+				cl.BTypes = append(cl.BTypes, "int")
+			}
 		}
+	}
+	if m := reForall.FindStringSubmatch(body); m != nil {
+		addBinders(m[1])
 		body = body[len(m[0]):]
 	} else if m := reExists.FindStringSubmatch(body); m != nil {
 		cl.Exists = true
-		for _, b := range strings.Split(m[1], ",") {
-			cl.Binders = append(cl.Binders, strings.TrimSpace(b))
-		}
+		addBinders(m[1])
 		body = body[len(m[0]):]
 	}
 	cl.Text = strings.TrimSpace(rc.text)
@@ -399,7 +407,7 @@ func (e *Engine) parseClause(ct *Contract, rc rawClause, pos token.Pos, withResu
 	}
 	for i, b := range cl.Binders {
 		varIdx[b] = cl.nRes + i
-		varType[b] = "int"
+		varType[b] = cl.BTypes[i]
 	}
 	skip := map[*ast.Ident]bool{}
 	ast.Inspect(ex, func(n ast.Node) bool {
